@@ -447,7 +447,11 @@ def run(F, rep):
                   'reaches addIssue/return on all paths')
         if s.return_nodes:
             returning[s.func.key] = s
-        if s.func.short in DESC_EXEMPT and not issues.has_nonempty_literal(s.desc) and s.desc is not None and not desc_has_text(F, s.func, s.desc):
+        fwd_issue = s.desc is not None and any(x.get('k') == 'Call' and x.get('mc') and x.get('fn') == 'description' and (x.get('cls') or '').endswith('libcellml::Issue') for x in walk(s.desc))
+        if fwd_issue and not desc_has_text(F, s.func, s.desc):
+            # the text of ANOTHER issue is forwarded (the importer re-reports a parser message): that issue obeys this rule itself - recognised by what is forwarded, wherever the code sits
+            rep.exempt('C15.I2', k, 'forwards the description of the issue it re-reports (that issue obeys this rule itself)')
+        elif s.func.short in DESC_EXEMPT and not issues.has_nonempty_literal(s.desc) and s.desc is not None and not desc_has_text(F, s.func, s.desc):
             rep.exempt('C15.I2', k, DESC_EXEMPT[s.func.short])
         else:
             rep.check(desc_has_text(F, s.func, s.desc), 'C15.I2', k, s.where,
